@@ -151,10 +151,26 @@ func cmdC15(args []string) error {
 		cases = append(cases, string(b))
 	}
 	cases = append(cases, "node__1", "edge_", "dc1___auth", "a.b", "host name", "_", "__", "ünï")
-	for _, in := range cases {
-		got, err := instID(in)
+	// the same names as host names: without a configured instance name the host name is used, and sanitised likewise
+	instIDHost := func(host string) (string, error) {
+		old := syncer.VerifSetHostname(host)
+		defer syncer.VerifSetHostname(old)
+		return instID("")
+	}
+	for ci, in := range append(append([]string(nil), cases...), cases...) {
+		viaHost := ci >= len(cases)
+		var got string
+		var err error
+		if viaHost {
+			if in == "" {
+				continue
+			}
+			got, err = instIDHost(in)
+		} else {
+			got, err = instID(in)
+		}
 		R.Evaluations++
-		sig := map[string]interface{}{"prop": "C15", "class": "sanitise"}
+		sig := map[string]interface{}{"prop": "C15", "class": "sanitise", "via_hostname": viaHost}
 		if err != nil {
 			R.Bad(in, sig, "syncer.New with instance %q: %v", in, err)
 			continue
